@@ -849,6 +849,16 @@ class Emitter:
         init, rng, beg, end, cnd, inc, var, body = c
         out = p + '{\n'; i2 = ind + 1; p2 = '  ' * i2
         if init.get('kind'): out += self.st(init, i2)
+        rv = kids(rng)[0]; rt = self.ct(rv['type'])
+        if rt.kind == 'ref' and rt.args[0].kind == 'array':
+            # range-for over std::array: printed as an index loop (begin = &a[0], end = &a[0] + N, ++it, *it  ==  i = 0, i != N, ++i, a[i])
+            n = rt.args[0].n; bv = kids(beg)[0]; suffix = bv['name'].replace('__begin', '')
+            idx = '__idx' + suffix; self.local_names[bv['id']] = f"(&({rv['name']})->a[{idx}])"
+            out += self.st(rng, i2)
+            out += p2 + f"uint64_t {idx} = 0;\n" + p2 + f"uint64_t __n{suffix} = Y_ARR_N({rv['name']}, {n});\n"
+            ann = self.loop_ann(i2)
+            out += p2 + f"for (; {idx} != __n{suffix}; ++{idx})\n" + ann + p2 + '{\n' + self.st(var, i2 + 1) + self.block(body, i2 + 1) + p2 + '}\n' + p + '}\n'
+            return out
         out += self.st(rng, i2) + self.st(beg, i2) + self.st(end, i2)
         pre, cx = self.cond(cnd, i2)
         pre2, ix = self.with_pre(lambda: self.ex(inc), i2)
